@@ -1,0 +1,47 @@
+//go:build verif
+
+// Machine-checked contracts for package dnsdata (comment-only; read by /verif's govc).
+
+package dnsdata
+
+//@ extern net IPMask.Size
+//@ pure
+//@ ensures ones >= 0 && ones <= bits && (bits == 0 || bits == 32 || bits == 128)
+//@ extern net IP.To16
+//@ pure
+//@ func IPv6.EqualToNetIP
+//@ trusted
+//@ pure
+//@ func IPv6.Equal
+//@ trusted
+//@ pure
+//@ func ipCleanMask
+//@ trusted
+//@ pure
+//@ func ipFillUnmasked
+//@ trusted
+//@ pure
+//@ func ipIncrementByOne
+//@ trusted
+//@ pure
+
+//@ func copyLocID
+//@ ensures[ok] err == nil <==> (locID != nil && len(locID) == 2)
+//@ ensures[val] err == nil ==> result0[0] == locID[0] && result0[1] == locID[1]
+
+// AddLocation (C03): a subnet contributes a Start point carrying its location and prefix length, and an End
+// point (location still unknown) right after its last address. Only a /0 (::/0, 0.0.0.0/0, i.e. /96 in
+// 128-bit terms) is a default route; the IPv6 default also gets the pseudo start after the IPv4 block.
+//@ func Rearranger.AddLocation
+//@ flag skip frame
+//@ ghostret ones int = maskLen
+//@ requires ipnet != nil
+//@ modifies r
+//@ ensures[badloc] err != nil ==> len(r.points) == old(len(r.points)) && r.hasDefaultIPv4Range == old(r.hasDefaultIPv4Range) && r.hasDefaultIPv6Range == old(r.hasDefaultIPv6Range)
+//@ ensures[default6] err == nil && r.hasDefaultIPv6Range && !old(r.hasDefaultIPv6Range) ==> ones == 0
+//@ ensures[default4] err == nil && r.hasDefaultIPv4Range && !old(r.hasDefaultIPv4Range) ==> ones == 0 || ones == 96
+//@ ensures[grow] err == nil ==> len(r.points) == old(len(r.points)) + 1 || len(r.points) == old(len(r.points)) + 2
+//@ ensures[keeps] forall(j, 0, old(len(r.points)), r.points[j] == old(r.points[j]))
+//@ ensures[start] err == nil ==> r.points[old(len(r.points))] != nil && r.points[old(len(r.points))].pointKind == pointKindStart && !r.points[old(len(r.points))].location.locIDIsNull && r.points[old(len(r.points))].location.maskLen == ones % 256 && r.points[old(len(r.points))].location.locID[0] == locID[0] && r.points[old(len(r.points))].location.locID[1] == locID[1]
+//@ ensures[second] err == nil && len(r.points) == old(len(r.points)) + 2 ==> r.points[old(len(r.points))+1] != nil && r.points[old(len(r.points))+1].location.maskLen == ones % 256
+//@ ensures[end] err == nil && len(r.points) == old(len(r.points)) + 2 && r.hasDefaultIPv6Range == old(r.hasDefaultIPv6Range) && r.hasDefaultIPv4Range == old(r.hasDefaultIPv4Range) && ones != 0 && ones != 96 ==> r.points[old(len(r.points))+1].pointKind == pointKindEnd && r.points[old(len(r.points))+1].location.locIDIsNull
